@@ -10,7 +10,7 @@ from __future__ import annotations
 
 import re
 import time
-from typing import Dict, List, Tuple
+from typing import List, Tuple
 
 from . import _run, qenum, rfcvalid
 
@@ -26,23 +26,29 @@ def _escapes_of(tree) -> List[str]:
     return [n.text for n in tree.walk() if n.name == "escapable"]
 
 
-def classify(q: str) -> str:
+def causes(q: str) -> List[str]:
+    """All known refusal causes visible in q (each a predicate on q's reference AST), in a fixed order."""
     tree = rfcvalid.parse_tree(q)
     if tree is None:  # cannot happen for a string the oracle called valid
-        return PROP + "-unclassified"
+        return []
+    out: List[str] = []
     names = [n.text for n in tree.walk() if n.name == "member-name-shorthand"]
     if any(any(ord(c) > 0xFFFF for c in nm) for nm in names):
-        return PROP + "-refuses-astral-shorthand-name"
+        out.append("astral-shorthand-name")
     for e in _escapes_of(tree):
         if e[0] == "u" and len(e) == 5 and int(e[1:5], 16) < 0x20:
-            return PROP + "-refuses-control-char-escape"
+            out.append("control-char-escape")
+            break
     numbers = [n.text for n in tree.walk() if n.name == "number"]
     if any(re.match(r"^0[eE]", x) for x in numbers):
-        return PROP + "-refuses-number-0e1"
+        out.append("number-0e1")
     args = [n for n in tree.walk() if n.name == "function-argument"]
-    if any(a.text[:1] in ("!", "(") for a in args):
-        return PROP + "-refuses-not-or-paren-in-function-argument"
+    if any(a.text[:1] == "!" for a in args):
+        out.append("not-opening-function-argument")
+    if any(a.text[:1] == "(" for a in args):
+        out.append("paren-opening-function-argument")
     reg = qenum.registry_for(q)
+    typed = set()
     for fe in (n for n in tree.walk() if n.name == "function-expr"):
         fname = fe.child("function-name").text
         sig = reg.get(fname)
@@ -54,12 +60,20 @@ def classify(q: str) -> str:
             if p == rfcvalid.LOGICAL and k.name == "function-expr":
                 inner = reg.get(k.child("function-name").text)
                 if inner and inner[1] == rfcvalid.LOGICAL:
-                    return PROP + "-refuses-logicaltype-call-as-logicaltype-argument"
+                    typed.add("logicaltype-call-as-logicaltype-argument")
                 if inner and inner[1] == rfcvalid.NODES:
-                    return PROP + "-refuses-nodestype-call-as-logicaltype-argument"
-            if p == rfcvalid.LOGICAL and k.name == "logical-expr":
-                return PROP + "-refuses-logical-expression-as-logicaltype-argument"
-    return PROP + "-unclassified"
+                    typed.add("nodestype-call-as-logicaltype-argument")
+    out.extend(sorted(typed))
+    return out
+
+
+def classify(q: str) -> str:
+    """Kind of a refused valid query: the known causes present in q joined by '+' (a query exhibiting two
+    causes is its own class, so that fixing one cause does not re-label the survivors)."""
+    cs = causes(q)
+    if not cs:
+        return PROP + "-unclassified"
+    return PROP + "-refuses-" + "+".join(cs)
 
 
 # --------------------------------------------------------------------------------------------------
